@@ -21,7 +21,8 @@ def make_run(cfg, answer, **kw):
     return SolverRun(N=cfg["N"], lower=lo, upper=up, r=cfg.get("r", 2.0), eps=cfg.get("eps", 1e-30),
                      itersLimit=cfg.get("itersLimit", 10 ** 6), answer=answer, density=cfg.get("density"),
                      refine=cfg.get("refine", False), fresh_holder=cfg.get("holder") == "fresh",
-                     other=tuple(cfg["other"]) if cfg.get("other") else None, int_bounds=cfg.get("box") == "Z", **kw)
+                     other=tuple(cfg["other"]) if cfg.get("other") else None, int_bounds=cfg.get("box") == "Z",
+                     constraints=int(cfg.get("constraints", 0)), probe=bool(cfg.get("probe")), **kw)
 
 
 def _horizon(run, cfg):
